@@ -38,10 +38,9 @@ import (
 )
 
 var (
-	rxPunctuation      = regexp.MustCompile(`\s+([.?!,;])\s*(\S*)`)
-	rxTempNewline      = regexp.MustCompile(`\s*\|\\/\|\s*`)
-	rxStyleValue       = regexp.MustCompile(`^[\w-]+$`)
-	rxSrcsetURL        = regexp.MustCompile(`(?i)(\S+)(\s+[\d.]+[xw])?(\s*(?:,|$))`)
+	rxPunctuation = regexp.MustCompile(`\s+([.?!,;])\s*(\S*)`)
+	rxTempNewline = regexp.MustCompile(`\s*\|\\/\|\s*`)
+	rxStyleValue  = regexp.MustCompile(`^[\w-]+$`)
 
 	elementWithSizeAttr = map[string]struct{}{
 		"table": {},
@@ -205,13 +204,59 @@ func GetSrcSetURLs(node *html.Node) []string {
 		return nil
 	}
 
-	matches := rxSrcsetURL.FindAllStringSubmatch(srcset, -1)
-	urls := make([]string, len(matches))
-	for i, group := range matches {
-		urls[i] = group[1]
+	candidates := parseSrcSet(srcset)
+	urls := make([]string, len(candidates))
+	for i, candidate := range candidates {
+		urls[i] = candidate.url
 	}
 
 	return urls
+}
+
+type srcSetCandidate struct {
+	url        string
+	start, end int // position of the URL inside the attribute value
+}
+
+// parseSrcSet splits the value of a srcset attribute into its image candidates,
+// following the HTML specification: a URL is a run of non white space characters;
+// if it ends with commas they end the candidate, otherwise everything up to the
+// next comma is the descriptor (of any form, e.g. "2x", "1e1x" or "100w 50h").
+func parseSrcSet(srcset string) []srcSetCandidate {
+	isSpace := func(c byte) bool {
+		return c == ' ' || c == '\t' || c == '\n' || c == '\f' || c == '\r'
+	}
+
+	var candidates []srcSetCandidate
+	for pos := 0; pos < len(srcset); {
+		for pos < len(srcset) && (isSpace(srcset[pos]) || srcset[pos] == ',') {
+			pos++
+		}
+		if pos >= len(srcset) {
+			break
+		}
+
+		start := pos
+		for pos < len(srcset) && !isSpace(srcset[pos]) {
+			pos++
+		}
+
+		url := srcset[start:pos]
+		if strings.HasSuffix(url, ",") {
+			url = strings.TrimRight(url, ",")
+		} else {
+			// Skip the descriptor
+			for pos < len(srcset) && srcset[pos] != ',' {
+				pos++
+			}
+		}
+
+		if url != "" {
+			candidates = append(candidates, srcSetCandidate{url, start, start + len(url)})
+		}
+	}
+
+	return candidates
 }
 
 func GetAllSrcSetURLs(root *html.Node) []string {
@@ -331,12 +376,17 @@ func makeSrcSetAbsolute(node *html.Node, pageURL *nurl.URL) {
 		return
 	}
 
-	newSrcset := rxSrcsetURL.ReplaceAllStringFunc(srcset, func(s string) string {
-		p := rxSrcsetURL.FindStringSubmatch(s)
-		return stringutil.CreateAbsoluteURL(p[1], pageURL) + p[2] + p[3]
-	})
+	// Only the URLs are replaced, descriptors and separators stay as they are.
+	var newSrcset strings.Builder
+	last := 0
+	for _, candidate := range parseSrcSet(srcset) {
+		newSrcset.WriteString(srcset[last:candidate.start])
+		newSrcset.WriteString(stringutil.CreateAbsoluteURL(candidate.url, pageURL))
+		last = candidate.end
+	}
+	newSrcset.WriteString(srcset[last:])
 
-	dom.SetAttribute(node, "srcset", newSrcset)
+	dom.SetAttribute(node, "srcset", newSrcset.String())
 }
 
 // =================================================================================
